@@ -128,6 +128,26 @@ CHECKS = {
         "Rainbow's loss form is delegated to C18; masking twin only on networks without batch norm; float tolerance 1e-4.",
         "DESIGN.md#c08",
     ),
+    "C10": (
+        True,
+        "exploration",
+        "history recording of the raw transition stream with unique ids and identifiable rewards + reference n-step fuser written from the statement; literal copy of train_off_policy's pairing code; exhaustive terminal placements for short streams",
+        "Every stored n-step row and its 1-step partner are decoded after every add (also after wrap-around of both buffers) "
+        "and compared with the reference fuser; all 2^L terminal placements are enumerated for short streams (sub-space "
+        "exhaustive), plus seeded random streams with 1-4 parallel environments.",
+        "A window may be cut shorter when another environment ends inside it (the statement grants this); float32 tolerance.",
+        "DESIGN.md#c10",
+    ),
+    "C11": (
+        True,
+        "exploration",
+        "module-attribute interposition of torch.rand (recorded or fed stratum variates incl. 0 and 1-2^-24) + exact Fraction prefix-sum model deciding every draw + icontract class invariants on both segment trees",
+        "Interleavings of add (with wrap), update_priorities (tiny/huge/repeated, (B,) and (B,1)) and sample on capacities "
+        "1-20; every draw is decided exactly against the model's prefix sums, weights against the formula, tree roots and "
+        "leaves against direct computation after every operation.",
+        "Proportionality is decided per variate, not statistically; 1e-5 priority floor is part of the model; clear() not driven.",
+        "DESIGN.md#c11",
+    ),
 }
 
 NOT_YET = "check not built yet in this round (framework under construction); see DESIGN.md section for the plan"
